@@ -20,6 +20,7 @@ RULE = (
     '; pass 6: negative raw scales / negative factor diagonals as valid states; CIQ with 26 well-spread inducing points'
     "; pass 8: the whole svgp cell under trace_mode / with debug off; calls with another broadcast batch shape (all strategies incl. BatchDecoupled) compared with the first call itself"
     "; pass 9: LMC with latent_dim=-2 (variational batch (Q, B) with B == Q, B != Q, B == 1), all tasks and task_indices, lazy and eager kernels"
+    "; pass 9 (cont.): KL value and shape for latent_dim=-2; DeepGPLayer on deterministic and sampled inputs against the strategy's own full covariance"
 )
 REQUIRED = ["qu_encodes_parameters", "qf_mean", "qf_mean_skipvar", "qf_covar", "qf_train_variance", "kl_closed_form", "qu_equals_prior_gives_prior", "whitened_equals_unwhitened", "lmc_mixing", "indep_mixing", "grid_interp_qf", "bdvs_qf", "orth_decoupled_qf", "orth_decoupled_kl"]
 ASSUMPTIONS = [
